@@ -9,7 +9,8 @@ use p2p::{Init, Step};
 
 pub const NAME: &str = "p2p_events";
 
-pub const MSGS: [&str; 41] = [
+pub const MSGS: [&str; 42] = [
+    "tx.reqidsnb",
     "hs.propose", "hs.accept:13:1", "hs.accept:15:1", "hs.accept:14:x", "hs.refuse", "hs.query",
     "ka.keepalive:65535", "ka.resp:65535", "ka.resp:1", "ka.done",
     "ps.req:5", "ps.peers:1,2,30", "ps.peers:-", "ps.done",
